@@ -301,7 +301,7 @@ def _check_diff(ctx, m2, snap, tag=""):
                   and len(m2._recordedX) == len(snap["recX"]) and len(m2._recordedTime) == len(snap["recT"]))
 
 
-def roundtrip_diff(ctx, nel=2, N=3, R=2, record=True, io="file", disable=False, post=False, fresh_record=None, fname=None, two=None):
+def roundtrip_diff(ctx, nel=2, N=3, R=2, record=True, io="file", disable=False, post=False, fresh_record=None, fname=None, two=None, remove=False):
     """DiffusionModel.save -> fresh DiffusionModel.load restores t, x and the recorded profiles/times -- also when
     recording was switched off (disableRecording keeps the history recorded so far) before saving, optionally with one
     more unrecorded step in between, whether or not the fresh model records, whatever the file name (with or without
@@ -309,6 +309,9 @@ def roundtrip_diff(ctx, nel=2, N=3, R=2, record=True, io="file", disable=False, 
     els = ["NI"] + _EL[:nel]
     m = DiffusionModel([0.0, 1.0], N, list(els), ["FCC_A1"], record=record)
     _fill_diff(ctx, m, nel, N, R, record)
+    if remove:
+        m.removeRecordedData()          # recording stays on, the history recorded so far is dropped
+        ctx.prove("removeRecordedData leaves no recorded history", m._recordedX is None and m._recordedTime is None)
     hist = (m._recordedX, m._recordedTime)
     if disable:
         m.disableRecording()
@@ -966,7 +969,20 @@ class json_layer:
         return False
 
 
-def rebuilt(ctx, ne=2, logX=False, suffix=False):
+_DEFAULT_OPTIONS = {"kernel": "cubic", "normalize": True}        # documented default of kernelKwargs
+
+
+def _fresh_session_defaults():
+    """the default kernel options are one dict object per class signature, shared by every surrogate of the process:
+    start every run from the documented default, as a fresh interpreter session does"""
+    import inspect
+    for c in (GeneralSurrogate, BinarySurrogate, MulticomponentSurrogate):
+        d = inspect.signature(c.__init__).parameters["kernelKwargs"].default
+        if isinstance(d, dict):
+            d.clear(); d.update(_DEFAULT_OPTIONS)
+
+
+def rebuilt(ctx, ne=2, logX=False, suffix=False, options="own"):
     """toJson -> fromJson on a fresh surrogate: every model of the rebuilt surrogate is fitted to the same training
     matrices with the same kernel arguments (hence, for a deterministic kernel, gives the same predictions), and it
     reproduces the training data like the original"""
@@ -974,8 +990,10 @@ def rebuilt(ctx, ne=2, logX=False, suffix=False):
     cls = BinarySurrogate if binary else MulticomponentSurrogate
     therm = Therm(ctx, ne, _PHASES, flags=False)
     K = mk_kernel(ctx)
-    kw = {"degree": 1}
-    surr = cls(therm, kernel=K, kernelKwargs=dict(kw))
+    _fresh_session_defaults()
+    kw = dict(_DEFAULT_OPTIONS) if options == "default" else {"degree": 1, "normalize": True}
+    mk = (lambda: cls(therm, kernel=K)) if options == "default" else (lambda: cls(therm, kernel=K, kernelKwargs=dict(kw)))
+    surr = mk()
     xs, Ts, xarg, Targ = _state_points(ctx, ne, 2, 2, logX)
     surr.trainDrivingForce(xarg, Targ, precPhase=_PHASES[2], logX=logX)
     surr.trainDiffusivity(xarg, Ts[0], logX=logX)
@@ -990,7 +1008,7 @@ def rebuilt(ctx, ne=2, logX=False, suffix=False):
         surr.trainCurvature(xarg, Ts[1], logX=logX)
     check_stored(ctx, surr, therm, tag="after training: ")
     before = snapshot_data(surr)
-    surr2 = cls(therm, kernel=K, kernelKwargs=dict(kw))
+    surr2 = mk()
     with json_layer(ctx) as path_of:
         surr.toJson(path_of("surr.json" if suffix else "surr"))
         surr2.fromJson(path_of("surr.json" if suffix else "surr"))
@@ -1008,6 +1026,10 @@ def rebuilt(ctx, ne=2, logX=False, suffix=False):
             ctx.prove("rebuilt model fitted to the same inputs: " + dn, same_arr(ctx, b[ph].x, a[ph].x))
             ctx.prove("rebuilt model fitted to the same outputs: " + dn, same_arr(ctx, b[ph].y, a[ph].y))
             ctx.prove("rebuilt model uses the same kernel arguments: " + dn, b[ph].kwargs == a[ph].kwargs and b[ph].args == a[ph].args)
+    for which, sg in (("original", surr), ("rebuilt", surr2)):
+        ctx.prove("fitting leaves the surrogate's kernel options as they were given: " + which, sg.kernelKwargs == kw)
+        ctx.prove("every model is fitted with the surrogate's kernel options: " + which,
+                  all(mdl.kwargs == kw and mdl.args == () for dn in dicts for mdl in getattr(sg, dn).values()))
     got = surr2.getDrivingForce(xs[1], Ts[0], precPhase=_PHASES[2])
     ctx.prove("rebuilt surrogate gives the original's prediction", same_struct(ctx, got, surr.getDrivingForce(xs[1], Ts[0], precPhase=_PHASES[2])))
     ctx.prove("untrained phases stay untrained after rebuilding", _PHASES[1] not in surr2.drivingForceModels)
@@ -1015,7 +1037,7 @@ def rebuilt(ctx, ne=2, logX=False, suffix=False):
 
 # ----------------------------------------------------------------------------------------------------------------------
 
-_F_RT = [DiffusionModel.disableRecording, DiffusionModel.postProcess, DiffusionModel.record, GenericModel.save, GenericModel.load, PrecipitateModel.toDict, PrecipitateModel.fromDict, PrecipitateBase.toDict,
+_F_RT = [DiffusionModel.removeRecordedData, DiffusionModel.disableRecording, DiffusionModel.postProcess, DiffusionModel.record, GenericModel.save, GenericModel.load, PrecipitateModel.toDict, PrecipitateModel.fromDict, PrecipitateBase.toDict,
          PrecipitateBase.fromDict, PrecipitationData.toDict, PrecipitationData.fromDict, DiffusionModel.toDict,
          DiffusionModel.fromDict, PBM.__init__, PBM.reset, StrengthModel.save, StrengthModel.load, PBM.saveRecordedPSD,
          PBM.loadRecordedPSD]
@@ -1116,6 +1138,11 @@ HARNESSES = [
                               {"nel": 2, "N": 2, "R": 3, "record": True, "io": "file", "disable": True, "post": True, "fresh_record": False},
                               {"nel": 1, "N": 3, "R": 2, "record": True, "io": "file.npz", "disable": True, "post": True, "fresh_record": True},
                               {"nel": 1, "N": 2, "R": 2, "record": True, "io": "dict", "post": True},
+                              {"nel": 2, "N": 2, "R": 1, "record": False, "io": "file"},
+                              {"nel": 1, "N": 3, "R": 1, "record": False, "io": "file.npz", "fresh_record": True},
+                              {"nel": 1, "N": 2, "R": 2, "record": True, "io": "file", "remove": True},
+                              {"nel": 1, "N": 2, "R": 2, "record": True, "io": "file", "remove": True, "disable": True, "fresh_record": False},
+                              {"nel": 1, "N": 2, "R": 1, "record": False, "two": ["off.1", "off.2"]},
                               {"nel": 1, "N": 2, "R": 1, "record": True, "io": "file", "fname": "a.b.c"},
                               {"nel": 1, "N": 2, "R": 1, "record": True, "io": "file", "fname": "x.npz.bak"},
                               {"nel": 1, "N": 2, "R": 2, "record": True, "two": ["snap_t0.25h", "snap_t0.50h"]},
@@ -1126,6 +1153,8 @@ HARNESSES = [
                                  for rec, io in ((True, "file"), (True, "dict"), (False, "dict"))] +
                                 [{"nel": e, "N": 3, "R": r, "record": True, "io": io, "disable": True, "post": po, "fresh_record": fr}
                                  for e in (1, 2) for r in (2, 4) for io in ("file", "dict") for po in (False, True) for fr in (True, False)] +
+                                [{"nel": e, "N": 3, "R": 2, "record": rec, "io": io, "remove": rm, "fresh_record": fr}
+                                 for e in (1, 2) for rec, rm in ((False, False), (True, True)) for io in ("file", "file.npz", "dict") for fr in (True, False)] +
                                 [{"nel": 1, "N": 2, "R": 2, "record": True, "io": "file", "fname": f} for f in _NAMES] +
                                 [{"nel": 2, "N": 3, "R": 2, "record": True, "two": list(t)} for t in _NAME_PAIRS]}),
     Harness("C20.roundtrip_strength", roundtrip_strength, functions=_F_RT, assumptions=["the strength model was updated at least once (rss, ls, solidStrength are arrays)"],
@@ -1151,7 +1180,7 @@ HARNESSES = [
                               {"ne": 3, "nx": 2, "nT": 1, "logX": False, "broadcast": True, "form": "list", "batch": True}],
                     "thorough": _th_trained([(2, 2, True), (2, 2, False), (3, 1, True), (1, 3, True), (3, 2, True)],
                                             [(2, 2, True), (2, 2, False), (3, 1, True), (1, 3, True)])}),
-    Harness("C20.trained_diff", trained_diff, functions=_F_TR, stubs=_S_THERM + _S_KERNEL, opts={"batch": False}, assumptions=_A_TR,
+    Harness("C20.trained_diff", trained_diff, functions=_F_TR, stubs=_S_THERM + _S_KERNEL, opts={"batch": False, "ob_timeout": 90}, assumptions=_A_TR,
             bounds={"components": "ne", "compositions": "nx", "temperatures": "nT", "input forms": "float/list/(N,)/(e,)/(N,1)/(N,e)"},
             params={"quick": [{"ne": 2, "nx": 2, "nT": 2, "logX": False, "broadcast": True, "form": "2d", "which": "inter"},
                               {"ne": 2, "nx": 2, "nT": 1, "logX": True, "broadcast": True, "form": "scalar", "which": "tracer"},
@@ -1192,6 +1221,7 @@ HARNESSES = [
                                  for b in (False, True) for f in ("kw", "pos")]}),
     Harness("C20.rebuilt", rebuilt, functions=_F_JS + _F_TR, stubs=_S_THERM + _S_KERNEL + _S_JSON, assumptions=_A_TR,
             bounds={"components": "ne", "training grid": "2 compositions x 2 temperatures"},
-            params={"quick": [{"ne": 2, "logX": False, "suffix": False}, {"ne": 3, "logX": True, "suffix": True}, {"ne": 2, "logX": True, "suffix": True}],
-                    "thorough": [{"ne": ne, "logX": lx, "suffix": s} for ne in (2, 3) for lx in (False, True) for s in (False, True)]}),
+            params={"quick": [{"ne": 2, "logX": False, "suffix": False}, {"ne": 3, "logX": True, "suffix": True}, {"ne": 2, "logX": True, "suffix": True},
+                              {"ne": 2, "logX": False, "suffix": True, "options": "default"}, {"ne": 3, "logX": False, "suffix": False, "options": "default"}],
+                    "thorough": [{"ne": ne, "logX": lx, "suffix": s, "options": o} for ne in (2, 3) for lx in (False, True) for s in (False, True) for o in ("own", "default")]}),
 ]
